@@ -2,6 +2,8 @@
    tree's columns as its domain. *)
 From DR Require Import Model.WF Proofs.PredLaws Proofs.SliceLaws Proofs.SortLaws Proofs.SemLaws.
 From Coq Require Import Lia.
+Lemma slice_ok_valid' a b : slice_ok a b -> slice_valid a b.
+Proof. intros H. apply slice_valid_iff. exact H. Qed.
 Local Open Scope Z_scope.
 
 Lemma rows_dom_join c p cl cr L R :
@@ -29,4 +31,126 @@ Proof.
   - auto.
   - destruct Hwf; auto.
   - auto.
+Qed.
+
+(* ---- C06, row-count half ---- *)
+Definition len_ok (mn : Z) (mx : option Z) (l : rows) : Prop :=
+  mn <= Z.of_nat (length l) ∧ match mx with Some m => Z.of_nat (length l) <= m | None => True end.
+
+Lemma isort_length {A} (leb : A -> A -> bool) l : length (isort leb l) = length l.
+Proof. symmetry. apply Permutation.Permutation_length, isort_perm. Qed.
+
+Lemma filter_none {A} (p : A -> bool) l : (forall x, In x l -> p x = false) -> List.filter p l = [].
+Proof.
+  induction l as [|a l IH]; simpl; intros H; auto.
+  rewrite (H a) by auto. apply IH. intros; apply H; auto.
+Qed.
+
+Lemma first_occ_all_equal (l : rows) : (forall r, In r l -> r = ∅) -> (length (first_occ row_eqb l) <= 1)%nat.
+Proof.
+  destruct l as [|x l]; simpl; intros H; [lia|].
+  rewrite filter_none; [simpl; lia|].
+  intros y Hy. apply (proj1 (first_occ_incl row_eqb row_eqb_spec l y)) in Hy.
+  unfold neqb. rewrite (H x) by (left; auto). rewrite (H y) by (right; auto).
+  unfold row_eqb. rewrite bool_decide_eq_true_2; auto.
+Qed.
+
+Lemma omap_length {A B} (f : A -> option B) l : (length (omap f l) <= length l)%nat.
+Proof. induction l as [|a l IH]; simpl; [lia|]. unfold omap in IH. destruct (f a); simpl; lia. Qed.
+
+Lemma sem_join_length c p L R : (length (sem_join c p L R) <= length L * length R)%nat.
+Proof.
+  unfold sem_join. induction L as [|l L IH]; simpl; auto.
+  rewrite app_length. pose proof (omap_length (fun r => if agree_on c l r && holds p (merge_rows l r) then Some (merge_rows l r) else None) R). lia.
+Qed.
+
+Theorem metadata_truthful env t :
+  wf_tree t → env_ok env t → len_ok (min_rows t) (max_rows t) (sem_tree env t).
+Proof.
+  unfold len_ok.
+  induction t as [n e cs mn mx|o t IH|b l IHl r IHr|n t IH|d t IH|sl sk _ t IH]; simpl; intros Hwf Henv.
+  - tauto.
+  - destruct Hwf as [Ho Ht]. specialize (IH Ht Henv). destruct IH as [I1 I2].
+    pose proof (sem_tree_dom env t Ht Henv) as Hdom.
+    set (l' := sem_tree env t) in *.
+    destruct o as [tg e| |ps|p|a b|ts|]; simpl.
+    + unfold sem_calc. rewrite map_length. auto.
+    + (* Deduplication *)
+      unfold sem_dedup. split.
+      * unfold dedup_min_rows. destruct (Z.leb_spec 1 (min_rows t)); [|lia].
+        assert (l' <> []) by (destruct l'; simpl in *; [lia|discriminate]).
+        pose proof (first_occ_nonempty row_eqb l' H0). destruct (first_occ row_eqb l'); simpl; [congruence|lia].
+      * unfold dedup_max_rows. destruct (bool_decide (columns t = ∅)) eqn:Ec.
+        -- apply bool_decide_eq_true in Ec.
+           assert (Hle : (length (first_occ row_eqb l') <= 1)%nat).
+           { apply first_occ_all_equal. intros r Hr. unfold rows_dom in Hdom. rewrite Forall_forall in Hdom.
+             apply dom_empty_inv_L. rewrite (Hdom r); auto. apply elem_of_list_In; auto. }
+           destruct (max_rows t) as [m|]; [|lia].
+           destruct (Z.leb_spec 1 m); [lia|].
+           pose proof (first_occ_length row_eqb l'). lia.
+        -- pose proof (first_occ_length row_eqb l'). destruct (max_rows t); auto. lia.
+    + unfold sem_proj. rewrite map_length. auto.
+    + unfold sem_sel. pose proof (filter_length_le (holds p) l'). split; [lia|]. destruct (max_rows t); auto. lia.
+    + (* Slice: the generated bound formulas *)
+      simpl in Ho. apply slice_ok_valid' in Ho.
+      change (sem_slice a b l') with (window a b l').
+      rewrite (window_length l' a b Ho). unfold slice_min_rows, slice_max_rows.
+      destruct b as [e'|], (max_rows t) as [m|]; split; auto; lia.
+    + unfold sem_sort. rewrite isort_length. auto.
+    + destruct Ho.
+  - destruct b as [|p c].
+    + destruct Hwf as (Hc & _ & Hl & Hr). destruct Henv as [El Er].
+      destruct (IHl Hl El) as [L1 L2], (IHr Hr Er) as [R1 R2].
+      cbn [sem_bop min_rows max_rows]. unfold sem_chain. rewrite app_length. split; [lia|].
+      unfold chain_max_rows. destruct (max_rows l), (max_rows r); auto. lia.
+    + destruct Hwf as (_ & _ & _ & _ & Hl & Hr). destruct Henv as [El Er].
+      destruct (IHl Hl El) as [L1 L2], (IHr Hr Er) as [R1 R2].
+      pose proof (sem_join_length c p (sem_tree env l) (sem_tree env r)) as HJ.
+      cbn [sem_bop min_rows max_rows]. split; [lia|]. unfold join_max_rows.
+      destruct (bool_decide (max_rows l = Some 0)) eqn:E1; simpl.
+      { apply bool_decide_eq_true in E1. rewrite E1 in L2. nia. }
+      destruct (bool_decide (max_rows r = Some 0)) eqn:E2; simpl.
+      { apply bool_decide_eq_true in E2. rewrite E2 in R2. nia. }
+      destruct (max_rows l), (max_rows r); auto. nia.
+  - auto.
+  - destruct Hwf; auto.
+  - auto.
+Qed.
+
+(* consequences used by the short-cuts keyed on the flags *)
+Corollary max_rows_zero_empty env t : wf_tree t → env_ok env t → max_rows t = Some 0 → sem_tree env t = [].
+Proof.
+  intros Hwf Henv Hm. destruct (metadata_truthful env t Hwf Henv) as [_ H]. rewrite Hm in H.
+  destruct (sem_tree env t); simpl in *; [auto|lia].
+Qed.
+
+Corollary join_identity_content env t :
+  wf_tree t → env_ok env t → is_join_identity t = true → sem_tree env t = [∅].
+Proof.
+  unfold is_join_identity. intros Hwf Henv H.
+  apply andb_true_iff in H as [H H3]. apply andb_true_iff in H as [H1 H2].
+  apply bool_decide_eq_true in H1, H2. apply Z.eqb_eq in H3.
+  destruct (metadata_truthful env t Hwf Henv) as [L1 L2]. rewrite H2 in L2. rewrite H3 in L1.
+  pose proof (sem_tree_dom env t Hwf Henv) as Hd. unfold rows_dom in Hd. rewrite H1 in Hd.
+  destruct (sem_tree env t) as [|x [|y l]]; simpl in *; try lia.
+  f_equal. apply dom_empty_inv_L. inversion Hd; auto.
+Qed.
+
+Lemma restrict_empty (r : row) : restrict ∅ r = ∅.
+Proof.
+  apply map_eq. intros k. rewrite restrict_lookup, lookup_empty.
+  destruct (decide (k ∈ (∅ : gset positive))); auto. set_solver.
+Qed.
+
+Lemma join_identity_elision c (L : rows) cs :
+  rows_dom cs L → c = ∅ → sem_join c (PLit true) L [∅] = L ∧ sem_join c (PLit true) [∅] L = L.
+Proof.
+  intros _ ->.
+  assert (A : forall l r : row, agree_on ∅ l r && holds (PLit true) (merge_rows l r) = true).
+  { intros l r. unfold agree_on. rewrite !restrict_empty. rewrite bool_decide_eq_true_2 by auto. reflexivity. }
+  unfold sem_join. split.
+  - induction L as [|l L IH]; [reflexivity|]. cbn [flat_map]. rewrite IH. cbn [omap list_omap]. rewrite A.
+    simpl. f_equal. unfold merge_rows. apply (left_id_L ∅ (∪)).
+  - cbn [flat_map]. rewrite app_nil_r. induction L as [|l L IH]; [reflexivity|].
+    cbn [omap list_omap] in *. rewrite A. rewrite IH. f_equal. unfold merge_rows. apply (right_id_L ∅ (∪)).
 Qed.
